@@ -96,6 +96,8 @@ package gitlab
 //@   props C16
 //@   requires cache.requestUser == nil
 //@   assert at `b, _, err = repo.Bugs().NewRaw(` [created-only-when-not-found] typeof(err) == type[*entity.ErrNotFound]
+// ... and the bug it creates carries exactly what the matcher above looks for, so the next import finds it
+//@   assert at `gi.out <- core.NewImportBug(b.Id())` [the-created-bug-is-found-by-the-next-import] cache.lastNewMeta["origin"] == "gitlab" && cache.lastNewMeta["gitlab-id"] == itoa(issue.IID) && cache.lastNewMeta["gitlab-base-url"] == ((gi.conf != nil && ("base-url" in gi.conf)) ? gi.conf["base-url"] : "") && cache.lastNewMeta["gitlab-project-id"] == ((gi.conf != nil && ("project-id" in gi.conf)) ? gi.conf["project-id"] : "")
 
 // Merging the event streams of an issue (C16: exactly the events the tracker holds are imported): the event sent on
 // is the head that is taken out of its slot - no head is dropped unsent and none is sent twice (that it is the earliest
